@@ -174,6 +174,8 @@ def run(ctx):
                 params = ["solver.max_iter=%d" % (200000 if solver == "fista" else 20000), "alm.max_iter=200",
                           "alm.tolerance=1e-6", "alm.dual_tolerance=1e-6", "solver.max_time=1h", "alm.max_time=1h"]
                 if solver == "pantr": params.append("dir.finite_diff=true")
+                prob.prov = 0
+                if rng.random() < 0.25: prob.prov = rng.choice([0x80, 0x20, 0x40, 0x10, 0xa0, 0xfe, 0x0e, rng.randrange(0, 256) & 0xfe])   # provider mix (supplied members poison the work buffers)
                 reqs.append(sl.Request(prob, x0, [0.0] * m, [1.0] * m, solver, direction, mode, params, tol=tol, rec_limit=0))
                 meta.append((k, prob, mu, solver, direction, mode))
     outs = run_driver(ctx, "solve", "".join(r.to_input() for r in reqs), timeout=3000)
